@@ -289,11 +289,11 @@ class CFG:
                     st.append(y)
         return seen
 
-    def reach_from_sensitive(self, start_blocks, avoid_blocks=frozenset()):
+    def reach_from_sensitive(self, start_blocks, avoid_blocks=frozenset(), avoid_edges=frozenset()):
         """Like reach_from, but pruning edges that contradict values known along the path (see must_pass)."""
         ctx = getattr(self, "_ctx", None)
         if ctx is None:
-            return self.reach_from(start_blocks, avoid_blocks=avoid_blocks)
+            return self.reach_from(start_blocks, avoid_edges=avoid_edges, avoid_blocks=avoid_blocks)
         from .guards import Walker
         w = self.__dict__.get("_walker")
         if w is None:
@@ -303,7 +303,7 @@ class CFG:
         for s0 in start_blocks:
             if s0 in avoid_blocks:
                 continue
-            out |= w.reachable({}, s0, frozenset(avoid_blocks), frozenset())
+            out |= w.reachable({}, s0, frozenset(avoid_blocks), frozenset(avoid_edges))
         return out
 
     def returns(self):
@@ -329,7 +329,13 @@ class CFG:
         return target not in r2
 
     def must_pass_blocks(self, target, via_blocks):
+        """Every entry->target path passes one of via_blocks (path-sensitive like must_pass when a check context is attached)."""
         if target in via_blocks:
             return True
         r = self.reach_from([0], avoid_blocks=frozenset(via_blocks))
-        return target not in r
+        if target not in r:
+            return True
+        if getattr(self, "_ctx", None) is None or 0 in via_blocks:
+            return False
+        r2 = self.reach_from_sensitive([0], avoid_blocks=frozenset(via_blocks))
+        return target not in r2
